@@ -2168,13 +2168,11 @@ Lemma group_nfa_wf Q Sg trs q0 F eps :
 Proof.
   unfold tnfa_wf_b. cbn [tnQ tnS tnD tnq0 tnF tneps].
   rewrite !andb_true_iff, mem_In, subsetb_incl, negb_true_iff, mem_nIn, forallb_forall. split.
-  - intros [[[H1 H2] H3] H4]. repeat split; try assumption;
-      apply group_nfa_target in H as Ht; destruct Ht as [s [Hl Hq]]; apply lookup_In in Hl;
-      specialize (H4 _ Hl); cbn in H4; rewrite !andb_true_iff, orb_true_iff, !mem_In, subsetb_incl in H4;
-      destruct H4 as [[Hp Ha] Hs].
-    + exact Hp.
-    + destruct Ha as [Ha|Ha]; [left; exact Ha | right; apply eqb_true; exact Ha].
-    + apply Hs, Hq.
+  - intros [[[H1 H2] H3] H4]. split; [exact H1|]. split; [exact H2|]. split; [exact H3|].
+    intros p a q Hin. apply (proj2 (group_nfa_target trs p a q)) in Hin. destruct Hin as [s [Hl Hq]]. apply lookup_In in Hl.
+    specialize (H4 _ Hl). cbn in H4. rewrite !andb_true_iff, orb_true_iff, !mem_In, subsetb_incl in H4.
+    destruct H4 as [[Hp Ha] Hs]. split; [exact Hp|]. split; [|apply Hs, Hq].
+    destruct Ha as [Ha|Ha]; [left; exact Ha | right; apply eqb_true; exact Ha].
   - intros [H1 [H2 [H3 H4]]]. repeat split; try assumption.
     intros [[p a] s] Hin. apply group_nfa_entry in Hin. destruct Hin as [Hne Hall].
     destruct s as [|q s]; [contradiction|].
@@ -2202,22 +2200,410 @@ Proof.
   assert (Hwf : tnfa_wf_b (mkTNFA (states_or_used A) sg (group_nfa (a_trans A)) (hd [] (a_init B)) (a_final B) eps) =
                 tnfa_wf_b (mkTNFA (states_or_used B) sg' (group_nfa (a_trans B)) (hd [] (a_init B)) (a_final B) eps)).
   { apply bool_eq_iff. rewrite !group_nfa_wf. unfold incl.
-    split; intros [H1 [H2 [H3 H4]]]; repeat split.
-    - apply Hst, H1.
-    - intros x Hx. apply Hst, H2, Hx.
-    - intros Hc. apply H3, Hg, Hc.
-    - apply Hst. apply (H4 p a q). apply Ht, H.
-    - destruct (H4 p a q (proj2 (Ht _) H)) as [_ [[Ha|Ha] _]]; [left; apply Hg, Ha | right; exact Ha].
-    - apply Hst. apply (H4 p a q). apply Ht, H.
-    - apply Hst, H1.
-    - intros x Hx. apply Hst, H2, Hx.
-    - intros Hc. apply H3, Hg, Hc.
-    - apply Hst. apply (H4 p a q). apply Ht, H.
-    - destruct (H4 p a q (proj1 (Ht _) H)) as [_ [[Ha|Ha] _]]; [left; apply Hg, Ha | right; exact Ha].
-    - apply Hst. apply (H4 p a q). apply Ht, H. }
+    split; intros [H1 [H2 [H3 H4]]].
+    - split; [apply Hst, H1|]. split; [intros x Hx; apply Hst, H2, Hx|]. split; [intros Hc; apply H3, Hg, Hc|].
+      intros p a q Hin. destruct (H4 p a q (proj2 (Ht _) Hin)) as [Hp [Ha Hq]].
+      split; [apply Hst, Hp|]. split; [|apply Hst, Hq]. destruct Ha as [Ha|Ha]; [left; apply Hg, Ha | right; exact Ha].
+    - split; [apply Hst, H1|]. split; [intros x Hx; apply Hst, H2, Hx|]. split; [intros Hc; apply H3, Hg, Hc|].
+      intros p a q Hin. destruct (H4 p a q (proj1 (Ht _) Hin)) as [Hp [Ha Hq]].
+      split; [apply Hst, Hp|]. split; [|apply Hst, Hq]. destruct Ha as [Ha|Ha]; [left; apply Hg, Ha | right; exact Ha]. }
   rewrite Hwf. clear Hwf. destruct (tnfa_wf_b _); [|exact I].
   unfold opt_rel, tnfa_equiv. cbn [tnQ tnS tnD tnq0 tnF tneps].
   repeat split; try (apply Hst); try (apply Hg); try tauto.
   - intros Hs. unfold tn_step in *. cbn [tnD] in *. apply group_nfa_target. apply Ht. apply group_nfa_target. exact Hs.
   - intros Hs. unfold tn_step in *. cbn [tnD] in *. apply group_nfa_target. apply Ht. apply group_nfa_target. exact Hs.
 Qed.
+
+(* ---- PDA ---- *)
+Lemma tpda_wf_b_equiv P P' : tpda_equiv P P' -> tpda_wf_b P = tpda_wf_b P'.
+Proof.
+  intros [HQ [HS [HG [HD [Hq [HF He]]]]]]. unfold tpda_wf_b.
+  rewrite Hq, He, (mem_seteq _ _ _ HQ), (mem_seteq _ _ _ HS), (mem_seteq _ _ _ HG), (subsetb_seteq _ _ _ _ HF HQ), (forallb_seteq _ _ _ HD).
+  f_equal. apply forallb_ext. intros [[[[p a] u] q] v].
+  rewrite (mem_seteq p _ _ HQ), (mem_seteq a _ _ HS), (mem_seteq u _ _ HG), (mem_seteq q _ _ HQ), (mem_seteq v _ _ HG). reflexivity.
+Qed.
+
+Theorem build_pda_equiv : forall sre A B, aut_equiv A B -> opt_rel tpda_equiv (build_pda sre A) (build_pda sre B).
+Proof.
+  intros sre A B He. unfold build_pda.
+  pose proof (states_or_used_equiv A B He) as Hst.
+  pose proof (aut_equiv_trans_seteq A B He) as Ht.
+  rewrite (check_common_equiv sre _ _ A B He Hst).
+  destruct (check_common sre (states_or_used B) B); cbn [negb]; [|exact I].
+  rewrite (parse_symbol_equiv A B _ _ _ He).
+  destruct (parse_symbol B kw_epsilon c_eps [c_underscore]) as [eps|]; [|exact I].
+  pose proof (seteq_map (fun t : token * token * token => let '(_, a, _) := t in a) _ _ Ht) as Hlab.
+  pose proof (get_symbol_set_equiv A B kw_input_symbols _ _ He
+               (seteq_dedup _ _ (seteq_filter (fun a => negb (eqb a eps)) _ _ (seteq_map (fun l => lbl l 0) _ _ Hlab)))) as Hg.
+  pose proof (get_symbol_set_equiv A B kw_stack_symbols _ _ He
+               (seteq_dedup _ _ (seteq_filter (fun a => negb (eqb a eps)) _ _ (seteq_flat_map (fun l => [lbl l 2; lbl l 3]) _ _ Hlab)))) as Hg2.
+  destruct (get_symbol_set A kw_input_symbols _) as [sg|]; destruct (get_symbol_set B kw_input_symbols _) as [sg'|]; cbn [opt_rel] in Hg; try contradiction.
+  2:{ destruct (get_symbol_set A kw_stack_symbols _); destruct (get_symbol_set B kw_stack_symbols _); exact I. }
+  destruct (get_symbol_set A kw_stack_symbols _) as [gm|]; destruct (get_symbol_set B kw_stack_symbols _) as [gm'|]; cbn [opt_rel] in Hg2; try contradiction; [|exact I].
+  rewrite (forallb_seteq re_word _ _ Hg). destruct (forallb re_word sg'); cbn [negb]; [|exact I].
+  change (map (fun t : token * token * token => let '(p, l, q) := t in (p, lbl l 0, lbl l 2, q, lbl l 3)) (a_trans A)) with (map pda_tuple_of (a_trans A)).
+  change (map (fun t : token * token * token => let '(p, l, q) := t in (p, lbl l 0, lbl l 2, q, lbl l 3)) (a_trans B)) with (map pda_tuple_of (a_trans B)).
+  assert (Heq : tpda_equiv (mkTPDA (states_or_used A) sg gm (dedup (map pda_tuple_of (a_trans A))) (hd [] (a_init A)) (a_final A) eps)
+                           (mkTPDA (states_or_used B) sg' gm' (dedup (map pda_tuple_of (a_trans B))) (hd [] (a_init B)) (a_final B) eps)).
+  { unfold tpda_equiv. cbn [tpQ tpS tpG tpD tpq0 tpF tpeps]. destruct He as [_ [Hi [Hf _]]]. rewrite Hi, Hf.
+    repeat split; try (apply Hst); try (apply Hg); try (apply Hg2); try tauto;
+      apply (seteq_dedup _ _ (seteq_map pda_tuple_of _ _ Ht)). }
+  rewrite (tpda_wf_b_equiv _ _ Heq). destruct (tpda_wf_b _); [exact Heq | exact I].
+Qed.
+
+(* ---- TM ---- *)
+Definition tm_used_tape (A : automaton) : list token :=
+  dedup (flat_map (fun l => [lbl l 0; lbl l 1]) (map (fun t : token * token * token => let '(_, a, _) := t in a) (a_trans A))).
+Definition tm_sigma (A : automaton) (blank : token) (tape : list token) : list token :=
+  match lookup kw_input_symbols (a_items A) with
+  | Some declared => dedup declared
+  | None => filter (fun a => negb (eqb a blank)) tape
+  end.
+
+Lemma tm_delta_of_eq trs :
+  fold_left (fun d (t : token * token * token) => let '(p, l, q) := t in
+     update (p, lbl l 0) (q, lbl l 1, match nth_error l 3 with Some c => Nat.eqb c c_L | None => false end) d) trs [] = tm_delta_of trs.
+Proof. unfold tm_delta_of, fold_update. apply fold_left_ext. intros d [[p l] q]. reflexivity. Qed.
+
+Lemma build_tm_alt sre A :
+  build_tm sre A =
+  match get_single A kw_accept (fresh_state_tok (a_states A) kw_accept), get_single A kw_reject (fresh_state_tok (a_states A) kw_reject) with
+  | Some qa, Some qr =>
+    if negb (check_common sre (tm_states A qa qr) A) then None
+    else match parse_symbol A kw_blank c_box [c_underscore] with
+         | None => None
+         | Some blank =>
+           match get_symbol_set A kw_tape_symbols (tm_used_tape A) with
+           | None => None
+           | Some tape =>
+             let T := mkTTM (tm_states A qa qr) (tm_sigma A blank tape) (add blank tape) (tm_delta_of (a_trans A)) (hd [] (a_init A)) qa qr blank in
+             if ttm_wf_b T then Some T else None
+           end
+         end
+  | _, _ => None
+  end.
+Proof. unfold build_tm. rewrite tm_delta_of_eq. reflexivity. Qed.
+
+Lemma tm_delta_In trs k v :
+  NoDup (map tm_key trs) -> In (k, v) (tm_delta_of trs) <-> exists x, In x trs /\ tm_key x = k /\ tm_val x = v.
+Proof.
+  intros Hn. unfold tm_delta_of. split.
+  - intros Hin. apply fold_update_In in Hin. destruct Hin as [[]|Hx]. exact Hx.
+  - intros Hx. apply lookup_In. apply (fold_update_lookup tm_key tm_val trs Hn). left. exact Hx.
+Qed.
+
+Lemma tm_delta_lookup trs k v :
+  NoDup (map tm_key trs) -> lookup k (tm_delta_of trs) = Some v <-> exists x, In x trs /\ tm_key x = k /\ tm_val x = v.
+Proof.
+  intros Hn. unfold tm_delta_of. rewrite (fold_update_lookup tm_key tm_val trs Hn). cbn [lookup]. split.
+  - intros [Hx|[_ Hc]]; [exact Hx | discriminate].
+  - intros Hx. left. exact Hx.
+Qed.
+
+Lemma option_eq_iff {X} (o1 o2 : option X) : (forall v, o1 = Some v <-> o2 = Some v) -> o1 = o2.
+Proof.
+  intros Hv. destruct o1 as [x|].
+  - symmetry. apply Hv. reflexivity.
+  - destruct o2 as [y|]; [|reflexivity]. apply Hv. reflexivity.
+Qed.
+
+Lemma ttm_wf_b_seteq T T' :
+  seteq (ttQ T) (ttQ T') -> seteq (ttS T) (ttS T') -> seteq (ttG T) (ttG T') -> seteq (ttD T) (ttD T') ->
+  ttq0 T = ttq0 T' -> ttqa T = ttqa T' -> ttqr T = ttqr T' -> ttblank T = ttblank T' -> ttm_wf_b T = ttm_wf_b T'.
+Proof.
+  intros HQ HS HG HD H0 Ha Hr Hb. unfold ttm_wf_b.
+  rewrite H0, Ha, Hr, Hb, !(mem_seteq _ _ _ HQ), (mem_seteq _ _ _ HS), (mem_seteq _ _ _ HG), (subsetb_seteq _ _ _ _ HS HG), (forallb_seteq _ _ _ HD).
+  f_equal. apply forallb_ext. intros [[p a] [[q b] d]].
+  rewrite (mem_seteq p _ _ HQ), (mem_seteq a _ _ HG), (mem_seteq q _ _ HQ), (mem_seteq b _ _ HG). reflexivity.
+Qed.
+
+Theorem build_tm_equiv : forall sre A B, aut_equiv A B -> NoDup (map tm_key (a_trans A)) ->
+  opt_rel ttm_equiv (build_tm sre A) (build_tm sre B).
+Proof.
+  intros sre A B He Hn. rewrite !build_tm_alt.
+  pose proof (aut_equiv_trans_seteq A B He) as Ht.
+  pose proof (used_states_equiv A B He) as Hu.
+  assert (Hn' : NoDup (map tm_key (a_trans B))).
+  { destruct He as [_ [_ [_ [Hp _]]]]. apply (Permutation_NoDup (Permutation_map tm_key Hp) Hn). }
+  assert (Hs : a_states A = a_states B) by apply He.
+  rewrite !(get_single_equiv A B _ _ He), Hs.
+  destruct (get_single B kw_accept _) as [qa|]; [|exact I].
+  destruct (get_single B kw_reject _) as [qr|]; [|exact I].
+  assert (Hst : seteq (tm_states A qa qr) (tm_states B qa qr)).
+  { unfold tm_states. rewrite Hs. destruct (a_states B); [apply seteq_union; exact Hu | apply seteq_refl]. }
+  rewrite (check_common_equiv sre _ _ A B He Hst).
+  destruct (check_common sre (tm_states B qa qr) B); cbn [negb]; [|exact I].
+  rewrite (parse_symbol_equiv A B _ _ _ He).
+  destruct (parse_symbol B kw_blank c_box [c_underscore]) as [blank|]; [|exact I].
+  pose proof (seteq_map (fun t : token * token * token => let '(_, a, _) := t in a) _ _ Ht) as Hlab.
+  pose proof (get_symbol_set_equiv A B kw_tape_symbols (tm_used_tape A) (tm_used_tape B) He
+               (seteq_dedup _ _ (seteq_flat_map (fun l => [lbl l 0; lbl l 1]) _ _ Hlab))) as Hg.
+  destruct (get_symbol_set A kw_tape_symbols _) as [tp|]; destruct (get_symbol_set B kw_tape_symbols _) as [tp'|]; cbn [opt_rel] in Hg; try contradiction; [|exact I].
+  cbv zeta.
+  assert (Hsig : seteq (tm_sigma A blank tp) (tm_sigma B blank tp')).
+  { unfold tm_sigma. destruct He as [_ [_ [_ [_ [_ Hl]]]]]. rewrite (Hl kw_input_symbols).
+    destruct (lookup kw_input_symbols (a_items B)); [apply seteq_refl | apply seteq_filter; exact Hg]. }
+  assert (HD : seteq (tm_delta_of (a_trans A)) (tm_delta_of (a_trans B))).
+  { intros [k v]. rewrite (tm_delta_In _ k v Hn), (tm_delta_In _ k v Hn').
+    split; intros [x [Hx Hkv]]; exists x; split; try exact Hkv; apply Ht, Hx. }
+  assert (Hi : a_init A = a_init B) by apply He. rewrite Hi.
+  assert (Hwf : ttm_wf_b (mkTTM (tm_states A qa qr) (tm_sigma A blank tp) (add blank tp) (tm_delta_of (a_trans A)) (hd [] (a_init B)) qa qr blank) =
+                ttm_wf_b (mkTTM (tm_states B qa qr) (tm_sigma B blank tp') (add blank tp') (tm_delta_of (a_trans B)) (hd [] (a_init B)) qa qr blank)).
+  { apply ttm_wf_b_seteq; cbn [ttQ ttS ttG ttD ttq0 ttqa ttqr ttblank]; try reflexivity; try assumption.
+    apply seteq_add; exact Hg. }
+  rewrite Hwf. clear Hwf. destruct (ttm_wf_b _); [|exact I].
+  unfold opt_rel, ttm_equiv. cbn [ttQ ttS ttG ttD ttq0 ttqa ttqr ttblank].
+  repeat split; try (apply Hst); try (apply Hsig); try (apply (seteq_add blank _ _ Hg)).
+  intros k. apply option_eq_iff. intros v. rewrite (tm_delta_lookup _ k v Hn), (tm_delta_lookup _ k v Hn').
+  split; intros [x [Hx Hkv]]; exists x; split; try exact Hkv; apply Ht, Hx.
+Qed.
+
+(* ------------------------------------------------------------------ *)
+(* Exactness: what a successful build returns (omitted declarations are derived) *)
+(* ------------------------------------------------------------------ *)
+Lemma get_symbol_set_Some A k used s :
+  get_symbol_set A k used = Some s ->
+  (exists d, lookup k (a_items A) = Some d /\ s = dedup d /\ incl used d) \/ (lookup k (a_items A) = None /\ s = used).
+Proof.
+  unfold get_symbol_set. destruct (lookup k (a_items A)) as [d|].
+  - destruct (subsetb used (dedup d)) eqn:E; [|discriminate]. intros Hs; inversion Hs; subst.
+    left. exists d. repeat split. apply subsetb_incl in E. intros x Hx. apply (dedup_In x d). apply E, Hx.
+  - intros Hs; inversion Hs; subst. right. auto.
+Qed.
+
+Lemma parse_symbol_Some A k c d e :
+  parse_symbol A k c d = Some e ->
+  lookup k (a_items A) = Some [e] \/
+  (lookup k (a_items A) = None /\
+   ((e = [c] /\ exists p a q, In (p, a, q) (a_trans A) /\ In c a) \/ (e = d /\ forall p a q, In (p, a, q) (a_trans A) -> ~ In c a))).
+Proof.
+  unfold parse_symbol, get_single. destruct (lookup k (a_items A)) as [[|v [|v' r]]|]; try discriminate.
+  - intros E; inversion E; subst. left; reflexivity.
+  - destruct (existsb _ (a_trans A)) eqn:Ex; intros E; inversion E; subst; right; split; try reflexivity.
+    + left. split; [reflexivity|]. apply existsb_exists in Ex. destruct Ex as [[[p a] q] [Hin Hc]].
+      exists p, a, q. split; [exact Hin|]. apply mem_In. exact Hc.
+    + right. split; [reflexivity|]. intros p a q Hin Hc.
+      assert (Ht : existsb (fun t : token * token * token => let '(_, a0, _) := t in contains_char c a0) (a_trans A) = true).
+      { apply existsb_exists. exists (p, a, q). split; [exact Hin | apply mem_In; exact Hc]. }
+      congruence.
+Qed.
+
+Lemma check_common_true sre st A :
+  check_common sre st A = true -> incl (used_states A) st /\ (forall s, In s st -> sre s = true) /\ length (dedup (a_init A)) = 1.
+Proof.
+  unfold check_common. rewrite !andb_true_iff, subsetb_incl, forallb_forall, Nat.eqb_eq. tauto.
+Qed.
+
+Theorem build_dfa_exact : forall sre A D, build_dfa sre A = Some D ->
+  tdQ D = states_or_used A /\ get_symbol_set A kw_input_symbols (dedup (map snd (dfa_keys A))) = Some (tdS D) /\
+  tdD D = dfa_delta_of (a_trans A) /\ tdq0 D = hd [] (a_init A) /\ tdF D = a_final A /\
+  length (dedup (a_init A)) = 1 /\ NoDup (dfa_keys A) /\ incl (used_states A) (tdQ D) /\ (forall s, In s (tdQ D) -> sre s = true).
+Proof.
+  intros sre A D. unfold build_dfa. fold (dfa_keys A). intros Hb.
+  destruct (check_common sre (states_or_used A) A) eqn:Hc; cbn [negb] in Hb; [|discriminate].
+  destruct (Nat.eqb (length (dedup (dfa_keys A))) (length (dfa_keys A))) eqn:Hd; cbn [negb] in Hb; [|discriminate].
+  destruct (get_symbol_set A kw_input_symbols _) as [sigma|]; [|discriminate].
+  destruct (negb (forallb re_word sigma)); [discriminate|].
+  destruct (negb (forallb _ (states_or_used A))); [discriminate|].
+  match type of Hb with (if ?b then _ else _) = _ => destruct b; [|discriminate] end.
+  inversion Hb; subst. cbn [tdQ tdS tdD tdq0 tdF].
+  apply check_common_true in Hc. destruct Hc as [Hu [Hs Hi]].
+  apply Nat.eqb_eq, dedup_length_NoDup in Hd. repeat split; assumption.
+Qed.
+
+Theorem build_nfa_exact : forall sre A N, build_nfa sre A = Some N ->
+  tnQ N = states_or_used A /\ parse_symbol A kw_epsilon c_eps [c_underscore] = Some (tneps N) /\
+  get_symbol_set A kw_input_symbols
+    (dedup (filter (fun a => negb (eqb a (tneps N))) (map (fun t : token * token * token => let '(_, a, _) := t in a) (a_trans A)))) = Some (tnS N) /\
+  tnD N = group_nfa (a_trans A) /\ tnq0 N = hd [] (a_init A) /\ tnF N = a_final A /\
+  length (dedup (a_init A)) = 1 /\ incl (used_states A) (tnQ N) /\ (forall s, In s (tnQ N) -> sre s = true).
+Proof.
+  intros sre A N. unfold build_nfa. intros Hb.
+  destruct (check_common sre (states_or_used A) A) eqn:Hc; cbn [negb] in Hb; [|discriminate].
+  destruct (parse_symbol A kw_epsilon c_eps [c_underscore]) as [eps|]; [|discriminate].
+  destruct (get_symbol_set A kw_input_symbols _) as [sigma|] eqn:Hg; [|discriminate].
+  destruct (negb (forallb re_word sigma)); [discriminate|].
+  match type of Hb with (if ?b then _ else _) = _ => destruct b; [|discriminate] end.
+  inversion Hb; subst. cbn [tnQ tnS tnD tnq0 tnF tneps].
+  apply check_common_true in Hc. destruct Hc as [Hu [Hs Hi]]. repeat split; assumption.
+Qed.
+
+Theorem build_pda_exact : forall sre A P, build_pda sre A = Some P ->
+  let labels := map (fun t : token * token * token => let '(_, a, _) := t in a) (a_trans A) in
+  tpQ P = states_or_used A /\ parse_symbol A kw_epsilon c_eps [c_underscore] = Some (tpeps P) /\
+  get_symbol_set A kw_input_symbols (dedup (filter (fun a => negb (eqb a (tpeps P))) (map (fun l => lbl l 0) labels))) = Some (tpS P) /\
+  get_symbol_set A kw_stack_symbols (dedup (filter (fun a => negb (eqb a (tpeps P))) (flat_map (fun l => [lbl l 2; lbl l 3]) labels))) = Some (tpG P) /\
+  tpD P = dedup (map pda_tuple_of (a_trans A)) /\ tpq0 P = hd [] (a_init A) /\ tpF P = a_final A /\
+  length (dedup (a_init A)) = 1 /\ incl (used_states A) (tpQ P) /\ (forall s, In s (tpQ P) -> sre s = true).
+Proof.
+  intros sre A P. unfold build_pda. intros Hb.
+  destruct (check_common sre (states_or_used A) A) eqn:Hc; cbn [negb] in Hb; [|discriminate].
+  destruct (parse_symbol A kw_epsilon c_eps [c_underscore]) as [eps|]; [|discriminate].
+  destruct (get_symbol_set A kw_input_symbols _) as [sigma|] eqn:Hg; [|discriminate].
+  destruct (get_symbol_set A kw_stack_symbols _) as [gamma|] eqn:Hg2; [|discriminate].
+  destruct (negb (forallb re_word sigma)); [discriminate|].
+  match type of Hb with (if ?b then _ else _) = _ => destruct b; [|discriminate] end.
+  inversion Hb; subst. cbn [tpQ tpS tpG tpD tpq0 tpF tpeps].
+  apply check_common_true in Hc. destruct Hc as [Hu [Hs Hi]]. repeat split; assumption.
+Qed.
+
+Theorem build_tm_exact : forall sre A T, build_tm sre A = Some T ->
+  get_single A kw_accept (fresh_state_tok (a_states A) kw_accept) = Some (ttqa T) /\
+  get_single A kw_reject (fresh_state_tok (a_states A) kw_reject) = Some (ttqr T) /\
+  ttQ T = tm_states A (ttqa T) (ttqr T) /\ parse_symbol A kw_blank c_box [c_underscore] = Some (ttblank T) /\
+  (exists tape, get_symbol_set A kw_tape_symbols (tm_used_tape A) = Some tape /\
+                ttG T = add (ttblank T) tape /\ ttS T = tm_sigma A (ttblank T) tape) /\
+  ttD T = tm_delta_of (a_trans A) /\ ttq0 T = hd [] (a_init A) /\
+  length (dedup (a_init A)) = 1 /\ incl (used_states A) (ttQ T) /\ (forall s, In s (ttQ T) -> sre s = true).
+Proof.
+  intros sre A T. rewrite build_tm_alt. intros Hb.
+  destruct (get_single A kw_accept _) as [qa|]; [|discriminate].
+  destruct (get_single A kw_reject _) as [qr|]; [|discriminate].
+  destruct (check_common sre (tm_states A qa qr) A) eqn:Hc; cbn [negb] in Hb; [|discriminate].
+  destruct (parse_symbol A kw_blank c_box [c_underscore]) as [blank|]; [|discriminate].
+  destruct (get_symbol_set A kw_tape_symbols _) as [tape|] eqn:Hg; [|discriminate].
+  cbv zeta in Hb.
+  match type of Hb with (if ?b then _ else _) = _ => destruct b; [|discriminate] end.
+  inversion Hb; subst. cbn [ttQ ttS ttG ttD ttq0 ttqa ttqr ttblank].
+  apply check_common_true in Hc. destruct Hc as [Hu [Hs Hi]].
+  repeat split; try assumption. exists tape. repeat split.
+Qed.
+
+(* parser level: the automaton record handed to the builder is exactly the one described by the text *)
+Theorem parse_automaton_exact : forall sre lre kw text A,
+  parse_automaton sre lre kw text = Some A ->
+  a_trans A = transs kw text /\ a_items A = decls kw text /\
+  a_states A = field kw_states (decls kw text) [] /\ a_init A = field kw_initial (decls kw text) [] /\
+  a_final A = field kw_final (decls kw text) [] /\ NoDup (map fst (decls kw text)) /\
+  (forall l, In l text -> line_ok sre lre kw l = true).
+Proof.
+  intros sre lre kw text A Hp. apply parse_automaton_Some in Hp. destruct Hp as [-> [Hok Hn]].
+  repeat split; assumption.
+Qed.
+
+(* duplicate declarations, per parser *)
+Theorem duplicate_declaration_rejected_parsers : forall t1 t2 t3 k ws1 ws2,
+  let text := t1 ++ (k :: ws1) :: t2 ++ (k :: ws2) :: t3 in
+  (is_decl kw_dfa (k :: ws1) = true -> forall sre, parse_dfa_with sre text = None) /\
+  (is_decl kw_nfa (k :: ws1) = true -> parse_nfa text = None) /\
+  (is_decl kw_pda (k :: ws1) = true -> parse_pda text = None) /\
+  (is_decl kw_tm (k :: ws1) = true -> parse_tm text = None).
+Proof.
+  intros t1 t2 t3 k ws1 ws2 text. unfold text. repeat split.
+  - intros Hd sre. rewrite parse_dfa_with_unfold, (duplicate_declaration_rejected sre re_any kw_dfa t1 t2 t3 k ws1 ws2 Hd). reflexivity.
+  - intros Hd. rewrite parse_nfa_unfold, (duplicate_declaration_rejected re_word re_any kw_nfa t1 t2 t3 k ws1 ws2 Hd). reflexivity.
+  - intros Hd. rewrite parse_pda_unfold, (duplicate_declaration_rejected re_word re_pda_label kw_pda t1 t2 t3 k ws1 ws2 Hd). reflexivity.
+  - intros Hd. rewrite parse_tm_unfold, (duplicate_declaration_rejected re_word re_tm_label kw_tm t1 t2 t3 k ws1 ws2 Hd). reflexivity.
+Qed.
+
+(* line order, at the level of the four parsers *)
+Theorem parse_dfa_line_order : forall sre text text', Permutation text text' ->
+  opt_rel tdfa_equiv (parse_dfa_with sre text) (parse_dfa_with sre text').
+Proof.
+  intros sre text text' Hp. rewrite !parse_dfa_with_unfold.
+  pose proof (line_order_irrelevant sre re_any kw_dfa text text' Hp) as He.
+  destruct (parse_automaton sre re_any kw_dfa text) as [A|]; destruct (parse_automaton sre re_any kw_dfa text') as [B|];
+    cbn [opt_rel] in He; try contradiction; [apply build_dfa_equiv; exact He | exact I].
+Qed.
+
+Theorem parse_nfa_line_order : forall text text', Permutation text text' ->
+  opt_rel tnfa_equiv (parse_nfa text) (parse_nfa text').
+Proof.
+  intros text text' Hp. rewrite !parse_nfa_unfold.
+  pose proof (line_order_irrelevant re_word re_any kw_nfa text text' Hp) as He.
+  destruct (parse_automaton re_word re_any kw_nfa text) as [A|]; destruct (parse_automaton re_word re_any kw_nfa text') as [B|];
+    cbn [opt_rel] in He; try contradiction; [apply build_nfa_equiv; exact He | exact I].
+Qed.
+
+Theorem parse_pda_line_order : forall text text', Permutation text text' ->
+  opt_rel tpda_equiv (parse_pda text) (parse_pda text').
+Proof.
+  intros text text' Hp. rewrite !parse_pda_unfold.
+  pose proof (line_order_irrelevant re_word re_pda_label kw_pda text text' Hp) as He.
+  destruct (parse_automaton re_word re_pda_label kw_pda text) as [A|]; destruct (parse_automaton re_word re_pda_label kw_pda text') as [B|];
+    cbn [opt_rel] in He; try contradiction; [apply build_pda_equiv; exact He | exact I].
+Qed.
+
+Theorem parse_tm_line_order : forall text text', Permutation text text' ->
+  NoDup (map tm_key (transs kw_tm text)) ->
+  opt_rel ttm_equiv (parse_tm text) (parse_tm text').
+Proof.
+  intros text text' Hp Hn. rewrite !parse_tm_unfold.
+  pose proof (line_order_irrelevant re_word re_tm_label kw_tm text text' Hp) as He.
+  destruct (parse_automaton re_word re_tm_label kw_tm text) as [A|] eqn:EA; destruct (parse_automaton re_word re_tm_label kw_tm text') as [B|];
+    cbn [opt_rel] in He; try contradiction; [|exact I].
+  apply build_tm_equiv; [exact He|]. apply parse_automaton_Some in EA. destruct EA as [-> _]. exact Hn.
+Qed.
+
+(* ------------------------------------------------------------------ *)
+(* Concrete witnesses: the side conditions of the theorems are needed    *)
+(* ------------------------------------------------------------------ *)
+Require Coq.Strings.String.
+Module ParserExamples.
+  Import Coq.Strings.String.
+  Local Open Scope string_scope.
+  Definition idT (l : list token) := l.
+  Definition idP (l : list (token * token)) := l.
+
+  (* without unique (source, read symbol) keys the later TM line wins and the line order matters *)
+  Example tm_line_order_matters :
+    let l1 := [tok "p"; tok "qa"; tok "aa,L"] in
+    let l2 := [tok "p"; tok "qr"; tok "aa,R"] in
+    let hdr := [[tok "initial"; tok "p"]; [tok "accept"; tok "qa"]; [tok "reject"; tok "qr"]] in
+    (match parse_tm (hdr ++ [l1; l2])%list, parse_tm (hdr ++ [l2; l1])%list with
+     | Some T1, Some T2 => negb (Prelude.eqb (lookup (tok "p", tok "a") (ttD T1)) (lookup (tok "p", tok "a") (ttD T2)))
+     | _, _ => false
+     end) = true.
+  Proof. vm_compute. reflexivity. Qed.
+
+  (* a DFA with a (source) state named like a keyword of another format does not survive print / parse_dfa,
+     because parse_dfa falls back to the keywords of all four formats; the same automaton is fine as an NFA *)
+  Example dfa_keyword_state_rejected :
+    let D := mkTDFA [tok "blank"] [tok "a"] [((tok "blank", tok "a"), tok "blank")] (tok "blank") [] in
+    tdfa_wf_b D = true /\ parse_dfa (print_dfa idT idP D) = None.
+  Proof. vm_compute. split; reflexivity. Qed.
+  Example nfa_other_keyword_state_ok :
+    let N := mkTNFA [tok "blank"] [tok "a"] [((tok "blank", tok "a"), [tok "blank"])] (tok "blank") [] (tok "_") in
+    tnfa_wf_b N = true /\ parse_nfa (print_nfa idT idP N) = Some N.
+  Proof. vm_compute. split; reflexivity. Qed.
+  Example nfa_keyword_state_rejected :
+    let N := mkTNFA [tok "epsilon"] [tok "a"] [((tok "epsilon", tok "a"), [tok "epsilon"])] (tok "epsilon") [] (tok "_") in
+    tnfa_wf_b N = true /\ parse_nfa (print_nfa idT idP N) = None.
+  Proof. vm_compute. split; reflexivity. Qed.
+  (* a TM with the default halting state names accept / reject (targets only) round-trips *)
+  Example tm_default_halting_names_ok :
+    let T := mkTTM [tok "p"; tok "accept"; tok "reject"] [tok "a"] [tok "a"; tok "_"]
+               [((tok "p", tok "a"), (tok "accept", tok "a", true)); ((tok "p", tok "_"), (tok "reject", tok "a", false))]
+               (tok "p") (tok "accept") (tok "reject") (tok "_") in
+    ttm_wf_b T = true /\ parse_tm (print_tm idT idP T) = Some T.
+  Proof. vm_compute. split; reflexivity. Qed.
+  (* an NFA entry with an empty target set prints nothing: the key disappears (tn_step is unchanged) *)
+  Example nfa_empty_target_key_vanishes :
+    let N := mkTNFA [tok "p"] [tok "a"] [((tok "p", tok "a"), [])] (tok "p") [] (tok "_") in
+    tnfa_wf_b N = true /\ option_map tnD (parse_nfa (print_nfa idT idP N)) = Some [].
+  Proof. vm_compute. split; reflexivity. Qed.
+  (* a repeated name in the accepting set is rejected by the parser *)
+  Example dfa_duplicate_final_rejected :
+    let D := mkTDFA [tok "p"] [] [] (tok "p") [tok "p"; tok "p"] in
+    tdfa_wf_b D = true /\ parse_dfa (print_dfa idT idP D) = None.
+  Proof. vm_compute. split; reflexivity. Qed.
+  (* an association list with a repeated key is not a dict: the printed TM re-parses to the later entry *)
+  Example tm_duplicate_key_differs :
+    let T := mkTTM [tok "p"; tok "qa"; tok "qr"] [tok "a"] [tok "a"; tok "_"]
+               [((tok "p", tok "a"), (tok "qa", tok "a", true)); ((tok "p", tok "a"), (tok "qr", tok "a", false))]
+               (tok "p") (tok "qa") (tok "qr") (tok "_") in
+    ttm_wf_b T = true /\
+    option_map (fun T' => lookup (tok "p", tok "a") (ttD T')) (parse_tm (print_tm idT idP T)) = Some (Some (tok "qr", tok "a", false)) /\
+    lookup (tok "p", tok "a") (ttD T) = Some (tok "qa", tok "a", true).
+  Proof. vm_compute. repeat split; reflexivity. Qed.
+  (* a PDA with a two-character stack symbol cannot be printed in the label format a,uv *)
+  Example pda_long_stack_symbol_rejected :
+    let P := mkTPDA [tok "p"] [tok "a"] [tok "XY"] [(tok "p", tok "a", tok "XY", tok "p", tok "_")] (tok "p") [] (tok "_") in
+    tpda_wf_b P = true /\ parse_pda (print_pda idT idP P) = None.
+  Proof. vm_compute. split; reflexivity. Qed.
+  (* DFA / NFA symbols may be longer words *)
+  Example dfa_long_symbol_ok :
+    let D := mkTDFA [tok "p"] [tok "ab"] [((tok "p", tok "ab"), tok "p")] (tok "p") [] in
+    parse_dfa (print_dfa idT idP D) = Some D.
+  Proof. vm_compute. reflexivity. Qed.
+End ParserExamples.
